@@ -133,8 +133,9 @@ def factor_event(n):
                 for k in list(d)[:2]:
                     del d[k]
                 d[n + 1] = 99
-            f = factor_add_terms_ex(MultiplyExpression(ConstantExpression(n), VariableExpression("y")), MultiplyExpression(ConstantExpression(7 * n), VariableExpression("y")))
-            if f is not False:
+            from mathy_core.util import get_term_ex
+            f = factor_add_terms_ex(get_term_ex(MultiplyExpression(ConstantExpression(n), VariableExpression("y"))), get_term_ex(MultiplyExpression(ConstantExpression(7 * n), VariableExpression("y"))))
+            if f is not False and f is not None:
                 for tbl in (f.all_left, f.all_right):
                     for k in list(tbl)[:1]:
                         del tbl[k]
